@@ -416,6 +416,16 @@ def clash_histories():
                                    ("AddUnit", (b, "late", "zz", "%f*2.0", "%f/2.0"), {"default_category": b}), ("AddCategory", ("probe4", b), {"valid_units": ["zz"]}), ("AddCategory", (a, b), {"override": True}),
                                    ("AddCategory", ("probe5", a), dict(probe_kw))]  # fmt: skip
                 out.append(h)
+    # a spelling that is first *used* as the legacy alias of a registered unit and only then registered as a unit of its own
+    FVx = ("%f/28.316846592", "%f*28.316846592")
+    for probe_first in (True, False):
+        for as_base in (False, True):
+            h = [("AddUnitBase", ("volume", "cubic metres", "m3"), {}), ("AddUnit", ("volume", "thousand cubic feet", "Mcf") + FVx, {}), ("AddCategory", ("vol", "volume"), {}), ("AddCategory", ("volume", "volume"), {})]
+            if probe_first:
+                h += [("Probe", ("vol", "1000ft3"), {}), ("Probe", ("volume", "1000ft3"), {})]
+            h += [("AddUnitBase", ("volume", "old symbol as a base", "1000ft3"), {}) if as_base else ("AddUnit", ("volume", "old symbol", "1000ft3", "%f*28.0", "%f/28.0"), {}), ("Probe", ("vol", "1000ft3"), {}),
+                  ("AddCategory", ("vol2", "volume"), {"valid_units": ["m3", "1000ft3"]})]
+            out.append(h)
     return out
 
 
